@@ -30,7 +30,7 @@ ASSUMPTIONS = ['only scenarios in which every randomness source is seeded and ev
                'unpickled frames carry no Waterfall by design (documented); equality covers data, axes, metadata, generator state',
                'independence of differently seeded noise is judged by inequality and |corr| < 6/sqrt(n)']
 NAMES = sorted(scen.SCENARIOS)
-ROUTES = ['synthetic', 'noise', 'from_data', 'loaded_fil', 'loaded_h5', 'sliced', 'after_get_waterfall', 'sliced_loaded']
+ROUTES = ['synthetic', 'noise', 'from_data', 'loaded_fil', 'loaded_h5', 'sliced', 'after_get_waterfall', 'sliced_loaded', 'consolidated']
 
 
 def required(tier):
@@ -226,6 +226,12 @@ def _copy(stg, c, tmp, R):
                 fr = fr.get_slice(1, F - 1)
         elif route == 'sliced':
             fr = base.get_slice(1, F - 1)
+        elif route == 'consolidated':
+            # concatenation of a cadence: its time axis holds absolute times with slew gaps (not i*dt)
+            f2 = stg.Frame(fchans=F, tchans=max(2, T // 2), seed=c['seed'] + 1, t_start=1.7e9 + T * kw['dt'] + 500.0, **kw)
+            f2.add_noise(10.0)
+            fr = stg.Cadence([base, f2]).consolidate()
+            fr.add_metadata({'k': [1]})
         elif route == 'after_get_waterfall':
             fr = base
             fr.get_waterfall()
